@@ -57,7 +57,7 @@ def theCtx : Ctx ByteArray :=
 
 def theCfg : Cfg ByteArray :=
   { ctx := theCtx, ofBytes := ba, toBytes := fun b => b.toList,
-    walkAccumulates := Dud.Facts.ownerWalkAccumulates, fuel := 64 }
+    walkAccumulates := Dud.Facts.ownerWalkAccumulates, fuel := 400 }
 
 /-! ## the stage-command language (`tools/vcmd`) -/
 
